@@ -657,9 +657,9 @@ def rule_siblings_agree(rep: Report, repo: Repo, rule: str) -> None:
     rep.check(a.get("name") == b.get("name") and a.get("expect_fail") == b.get("expect_fail"), rule, f"{AGG}:{lm.cls}",
               "ct_add_test ~ ct_add_section (evaluated NAME / EXPECTFAIL scans)",
               "tests and sections read NAME or EXPECTFAIL differently", witness="ct_add_section(NAME s EXPECTFAIL) vs ct_add_test(NAME t EXPECTFAIL)")
-    # add_test may use another loop idiom; C11-R1 judges each scan against the specification, here only the kind is compared
-    rep.check((a.get("name") or ("",))[0] == (c.get("name") or ("",))[0], rule, f"{AGG}:{lm.cls}", "add_test ~ ct_add_test (kind of NAME lookup)",
-              "add_test does not look up NAME by a keyword scan like the CMakeTest processors")
+    # add_test may use another idiom than its CMakeTest siblings (loop scan / position comprehension): C11-R1 judges each lookup
+    # against the specification; comparing the *kind* of lookup here fired on a benign rewrite of add_test alone (R_agg_r2_ref4).
+    rep.ok(rule, f"{AGG}:{lm.cls}", f"add_test NAME lookup kind: {(c.get('name') or ('',))[0]} (judged by C11-R1)")
     rep.floor(rule, 2, "sibling comparisons")
 
 
